@@ -6,7 +6,8 @@ ID = "C10"
 RULE = (
     "Walks mixing enable_features / disable_features (random subsets of the optional keys, repeated, "
     "incl. unknown keys at any list position) with edits, undo and redo, with/without segmentation "
-    "and with/without a pre-built registry. Model = set of enabled keys. After every step: active "
+    "and with/without a pre-built registry; also enable_features(recompute=False), after which the "
+    "values of those keys are not asserted until the next enable with recomputation. Model = set of enabled keys. After every step: active "
     "annotator keys == model; registry keys == static + model; every enabled measurement equals its "
     "reference (as C08/C09) - in particular right after an enable with recomputation; values of "
     "disabled managed keys on surviving nodes/edges are unchanged by edits; unknown key -> KeyError "
@@ -19,6 +20,7 @@ RULE = (
 ASSUMPTIONS = ["core id features are toggled only at the end of a walk (user actions are undefined without track ids)"]
 REQUIRED_CLASSES = {t: ["enable_after_edits", "unknown_key:enable", "unknown_key:disable",
                         "protected_attr:enabled", "protected_attr:disabled", "edit_with_disabled_feature",
-                        "core_toggle", "cfg:route=featuredict", "cfg:noseg"] for t in ("quick", "thorough")}
+                        "core_toggle", "cfg:route=featuredict", "cfg:noseg",
+                        "recompute_after_enable_without_recompute"] for t in ("quick", "thorough")}
 run_shard, replay, minimise = make(C10Oracle, quick=(3200, 40), thorough=(6400, 60), profile="features",
                                    cfg_kwargs={"allow_optional": True}, refusal_bias=0.15)
